@@ -75,6 +75,14 @@ def limit_programs():
         out.append(("limit:locals:%d" % n, "{\n%s\nprint(\"done\");\n}\n" % "\n".join("var l%d = %d;" % (i, i) for i in range(n)), {}))
         out.append(("limit:upvalues:%d" % n, "fn outer() {\n%s\nfn inner() { return %s; }\nreturn inner();\n}\nprint(\"done\");\n" % (
             "\n".join("var l%d = %d;" % (i, i) for i in range(min(n, 250))), " + ".join("l%d" % i for i in range(min(n, 250)))), {}))
+        # n captured variables in ONE function: 200 come from two levels up, the rest from the enclosing function; the last one is
+        # written through the closure and read back outside, the first one must not be disturbed
+        k = n - 200
+        out.append(("limit:upvalues2:%d:%d" % (n, sum(range(200)) + sum(1000 + i for i in range(k))),
+                    "fn outer() {\n%s\nfn mid() {\n%s\nfn inner() { b%d = b%d + 0; return %s; }\nvar r = inner();\nb%d = \"written\";\nreturn [r, a0, b%d];\n}\nreturn mid();\n}\n"
+                    "var res = outer();\nprint(res[0]);\nprint(res[1]);\nprint(res[2]);\n" % (
+                        "\n".join("var a%d = %d;" % (i, i) for i in range(200)), "\n".join("var b%d = %d;" % (i, 1000 + i) for i in range(k)),
+                        k - 1, k - 1, " + ".join(["a%d" % i for i in range(200)] + ["b%d" % i for i in range(k)]), k - 1, k - 1), {}))
         out.append(("limit:interp:%d" % n, "var a = 1;\nprint(\"%s\".len());\n" % "".join("${a}" for _ in range(n)), {}))
         # exactly n parts in three more shapes: literal/interpolation alternating, ending in a literal or in an interpolation, starting with either
         for shape in ("li", "il", "lil"):
@@ -182,6 +190,8 @@ def correspondence(ctx, model_ok=True):
         expect = {"jump": ["done"], "loop": ["2", "done"], "try": ["caught", "done"]}.get(kind)
         if r.get("status") == "err" and r.get("kind") == "CompileError":
             ok = True
+        elif r.get("status") == "ok" and kind == "upvalues2":
+            ok = r.get("printed") == [name.split(":")[3], "0", "written"]
         elif r.get("status") == "ok" and kind == "interpshape":
             ok = r.get("printed") == [name.split(":")[4]]
         elif r.get("status") == "ok":
